@@ -132,6 +132,8 @@ def try_parse(text):
 # ----------------------------------------------------------------------------
 # batch runner with crash / hang isolation
 
+_SETPRIV = shutil.which('setpriv')
+
 def _run_chunk(cmd, lines, timeout, env=None, limit_as=None, stack_unlimited=False):
     """Feed lines to a line-oriented worker; returns one output string per
     line.  A worker that dies yields ("abort" <status>) for the line it was
@@ -144,6 +146,9 @@ def _run_chunk(cmd, lines, timeout, env=None, limit_as=None, stack_unlimited=Fal
         pre += 'ulimit -v %d; ' % (limit_as // 1024)
     if stack_unlimited:
         pre += 'ulimit -s unlimited 2>/dev/null || ulimit -s 1000000; '
+    if _SETPRIV:
+        # a worker stuck in a computation must not outlive a check that is killed from outside
+        cmd = [_SETPRIV, '--pdeathsig', 'KILL', '--'] + list(cmd)
     while pos < len(lines):
         import tempfile
         errf = tempfile.TemporaryFile()
